@@ -72,6 +72,7 @@ func runC01(r *core.Run) {
 		{"html", core.AHTML, 4, 5, []string{"core+unsafe", "all+cjk+autoid+attr"}},
 		{"ext", core.AExt, 4, 5, []string{"gfm", "all+cjk+autoid+attr+unsafe+xhtml", "footnote+xhtml", "deflist", "linkify"}},
 		{"bytes", core.ABytes, 4, 5, []string{"core", "all+cjk+autoid+attr+unsafe+xhtml", "cjk-simple", "cjk-css3+hardwraps", "cjk-esc"}},
+		{"tab", core.ATab, 5, 6, []string{"all+cjk+autoid+attr+unsafe+xhtml"}},
 	}
 	nw := core.Workers()
 	for _, sp := range specs {
